@@ -61,6 +61,13 @@ def points(tier: str) -> List[Dict[str, Any]]:
                 for txt_changes in (False, True):
                     pts.append({"reuse": True, "b_state": b_state, "b_arrives": b_arrives, "timeout": timeout,
                                 "txt_changes": txt_changes, "cache": {}, "arrive": {}, "forced": None, "extra": False})
+    # a lookup object that already knows the host name: built with server=..., or reused after a lookup that learnt SRV/TXT
+    # but timed out for lack of an address; the cache is then completed and the object asked again
+    for how in ("server-given", "server-given-recased", "retry-after-timeout"):
+        for a_state in ("fresh", "stale", "absent", "expired"):
+            for timeout in (300, 3000):
+                pts.append({"knows_host": how, "a_state": a_state, "timeout": timeout, "cache": {}, "arrive": {},
+                            "forced": None, "extra": False})
     # extra address / old host variants on a reduced set
     for st_a in ("fresh", "stale"):
         for st_srv in ("fresh", "absent", "expired"):
@@ -78,6 +85,8 @@ def run_point(p: Dict[str, Any], verbose: bool = False) -> Tuple[Optional[Dict[s
     problems: List[str] = []
     if p.get("reuse"):
         return run_reuse(p, verbose)
+    if p.get("knows_host"):
+        return run_knows_host(p, verbose)
     st, timeout, arrive = p["cache"], p["timeout"], p["arrive"]
     with World(rand=RandPolicy.const(0.0)) as w:
         host = w.new_zeroconf()
@@ -311,6 +320,83 @@ def run_reuse(p: Dict[str, Any], verbose: bool = False) -> Tuple[Optional[Dict[s
         obs = digest((done.get("result"), done.get("t"), sorted(info.addresses_by_version(IPVersion.All)), info.server))
         if verbose:
             print("    second lookup:", done, info.server, info.port, info.text, info.addresses_by_version(IPVersion.All))
+    verdict = None
+    if problems:
+        verdict = {"what": f"C18 {p}: {problems[0][:600]}", "replay": {"problems": problems[:5]},
+                   "signature": {"check": problems[0].split(":")[0]}}
+    return verdict, obs, w.loop.handles_run
+
+
+def run_knows_host(p: Dict[str, Any], verbose: bool = False) -> Tuple[Optional[Dict[str, Any]], str, int]:
+    """The lookup object knows the host name before the lookup under test starts."""
+    from zeroconf import IPVersion
+    from zeroconf.asyncio import AsyncServiceInfo
+
+    problems: List[str] = []
+    timeout, how, a_state = p["timeout"], p["knows_host"], p["a_state"]
+    with World(rand=RandPolicy.const(0.0)) as w:
+        host = w.new_zeroconf()
+        zc = host.zc
+
+        def inject(recs: List[tuple], n: int) -> None:
+            w.net.inject(host, wire.encode(n, 0x8400, (), recs), ("10.0.0.50", 5353))
+            w.settle()
+
+        w.advance(4000)
+        if how == "retry-after-timeout":
+            inject([GOOD["srv"], GOOD["txt"]], 1)
+            info = AsyncServiceInfo(TYPE, NAME)
+            first = w.run_coro(info.async_request(zc, 500))
+            if first:
+                problems.append("knows-host: first lookup succeeded without any address")
+        else:
+            inject([GOOD["srv"], GOOD["txt"]], 1)
+            info = AsyncServiceInfo(TYPE, NAME, server=HOSTN if how == "server-given" else "H.LOCAL.")
+        # now the address situation of the cache is established
+        if a_state == "expired":
+            inject([OLD["a"]], 2)
+            w.advance(12_000)
+        elif a_state in ("fresh", "stale"):
+            inject([GOOD["a"]], 3)
+            w.advance(30_000 if a_state == "fresh" else 90_000)
+            inject([("SRV", NAME, 1, 120, 1, 2, 80, HOSTN), ("TXT", NAME, 1, 4500, GOOD["txt"][4])], 4)  # keep SRV/TXT fresh
+        else:
+            w.advance(1000)
+        t0 = w.now_ms
+        n_before = len(w.net.trace)
+        done: Dict[str, Any] = {}
+
+        async def go() -> None:
+            done["result"] = await info.async_request(zc, timeout)
+            done["t"] = w.now_ms - t0
+
+        w.spawn(go())
+        w.advance(timeout + 1500)
+        suffices = a_state in ("fresh", "stale")
+        if "t" not in done:
+            problems.append("bounded: the lookup never returned")
+        else:
+            res, t_ret = done["result"], done["t"]
+            sent = [Decoded(s) for s in w.net.trace[n_before:] if s.host == host.name]
+            if suffices:
+                if not res:
+                    problems.append(f"iff: returned False after {t_ret:.0f} ms although the cache holds SRV, TXT and an unexpired "
+                                    f"address of {HOSTN}")
+                if sent:
+                    problems.append(f"cache-first: {len(sent)} datagram(s) sent although the cache already sufficed")
+                if res and set(info.addresses_by_version(IPVersion.All)) != {GOOD["a"][4]}:
+                    problems.append(f"provenance: addresses {info.addresses_by_version(IPVersion.All)}")
+            else:
+                if res:
+                    problems.append(f"iff: returned True without an unexpired address ({info.addresses_by_version(IPVersion.All)})")
+                if not sent:
+                    problems.append("queries: nothing asked although no unexpired address is cached")
+            if t_ret > timeout + 0.001:
+                problems.append(f"bounded: returned after {t_ret:.0f} ms, timeout {timeout}")
+        excs = w.exceptions()
+        if excs:
+            problems.append(f"exception in the event loop: {excs[0]}")
+        obs = digest((done.get("result"), done.get("t"), sorted(info.addresses_by_version(IPVersion.All))))
     verdict = None
     if problems:
         verdict = {"what": f"C18 {p}: {problems[0][:600]}", "replay": {"problems": problems[:5]},
